@@ -3,6 +3,7 @@ package main
 import (
 	"bytes"
 	"context"
+	"encoding/json"
 	"fmt"
 	"log/slog"
 	"os"
@@ -52,43 +53,53 @@ type rEv struct {
 }
 
 type rCfg struct {
-	Name            string  `json:"name"`
-	Mode            string  `json:"mode"`
-	RateMode        bool    `json:"rate_mode"`
-	Conc            int     `json:"conc"`
-	MaxIter         int64   `json:"maxiter"`
-	MaxDurUs        int64   `json:"maxdur_us"`
-	TrigDurUs       int64   `json:"trigdur_us"` // trigger's own total duration (0 = unlimited)
-	IntervalUs      int64   `json:"interval_us"`
-	WaitUs          int64   `json:"wait_us"`
-	CancelUs        int64   `json:"cancel_us"` // 0 = never cancelled
-	SetupFail       bool    `json:"setup_fail"`
-	SetupMode       string  `json:"setup_mode"`
-	SetupUs         int64   `json:"setup_us"`      // setup sleeps this long
-	CleanupUs       int64   `json:"cleanup_us"`    // every iteration cleanup sleeps this long
-	Wedge           bool    `json:"wedge"`         // negative replay of RunLifecycle's wedge: park a due progress tick until main is inside Summary
-	StopDelayUs     int64   `json:"stop_delay_us"` // the hook parks the pool's stop goroutine this long at tp.stop.flagged
-	PoolOnly        bool    `json:"pool_only"`     // cooperative pool schedules: no Run.Do around the pool
-	Light           bool    `json:"light"`         // contention runs: bodies only record their id lock-free; no end/cleanup events
-	Blockers        int     `json:"blockers"`
-	Ample           bool    `json:"ample"` // concurrency >= every tick and instant bodies: nothing can be pending at a tick
-	Rendezvous      bool    `json:"rendezvous"`
-	StageEndDelayAt int     `json:"stage_end_delay_at"` // file mode: the stage loop is held for stage_end_delay_us when this stage (1-based) ends
-	StageEndDelayUs int64   `json:"stage_end_delay_us"`
-	StallFirstUs    int64   `json:"stall_first_us"` // the trigger goroutine is held this long right after its FIRST evaluation (a slow pool start)
-	CancelAtEval    int     `json:"cancel_at_eval"` // file mode: the caller cancels right after this rate evaluation (1-based), while the trigger goroutine is still busy with it for stall_us
-	UIntervalUs     int64   `json:"uinterval_us"`   // scripted configured-rate function: the interval it is configured for (0 = not scripted)
-	StallEval       int     `json:"stall_eval"`     // the trigger goroutine is held for stall_us right after this evaluation (1-based; 0 = never)
-	StallUs         int64   `json:"stall_us"`
-	MetricsRuns     int     `json:"metrics_runs"`
-	RunIndex        int     `json:"run_index"`
-	Labels          string  `json:"labels"`
-	Args            string  `json:"args"`
-	FileStages      int     `json:"file_stages"`
-	TeardownFail    bool    `json:"teardown_fail"` // a cleanup registered by the setup fails when the run is over
-	StepAtUs        int64   `json:"step_at_us"`    // staged step profile: 0 until this instant of the profile, step_val from then on
-	StepVal         int64   `json:"step_val"`
-	StageIntervals  []int64 `json:"stage_intervals_us"` // file mode: the tick interval each stage is configured for (0 = not a rate stage / not stated)
+	Name            string `json:"name"`
+	Mode            string `json:"mode"`
+	RateMode        bool   `json:"rate_mode"`
+	Conc            int    `json:"conc"`
+	MaxIter         int64  `json:"maxiter"`
+	MaxDurUs        int64  `json:"maxdur_us"`
+	TrigDurUs       int64  `json:"trigdur_us"` // trigger's own total duration (0 = unlimited)
+	IntervalUs      int64  `json:"interval_us"`
+	WaitUs          int64  `json:"wait_us"`
+	CancelUs        int64  `json:"cancel_us"` // 0 = never cancelled
+	SetupFail       bool   `json:"setup_fail"`
+	SetupMode       string `json:"setup_mode"`
+	SetupUs         int64  `json:"setup_us"`      // setup sleeps this long
+	CleanupUs       int64  `json:"cleanup_us"`    // every iteration cleanup sleeps this long
+	Wedge           bool   `json:"wedge"`         // negative replay of RunLifecycle's wedge: park a due progress tick until main is inside Summary
+	StopDelayUs     int64  `json:"stop_delay_us"` // the hook parks the pool's stop goroutine this long at tp.stop.flagged
+	PoolOnly        bool   `json:"pool_only"`     // cooperative pool schedules: no Run.Do around the pool
+	Light           bool   `json:"light"`         // contention runs: bodies only record their id lock-free; no end/cleanup events
+	Blockers        int    `json:"blockers"`
+	Ample           bool   `json:"ample"` // concurrency >= every tick and instant bodies: nothing can be pending at a tick
+	Rendezvous      bool   `json:"rendezvous"`
+	StageEndDelayAt int    `json:"stage_end_delay_at"` // file mode: the stage loop is held for stage_end_delay_us when this stage (1-based) ends
+	StageEndDelayUs int64  `json:"stage_end_delay_us"`
+	StallFirstUs    int64  `json:"stall_first_us"` // the trigger goroutine is held this long right after its FIRST evaluation (a slow pool start)
+	CancelAtEval    int    `json:"cancel_at_eval"` // file mode: the caller cancels right after this rate evaluation (1-based), while the trigger goroutine is still busy with it for stall_us
+	UIntervalUs     int64  `json:"uinterval_us"`   // scripted configured-rate function: the interval it is configured for (0 = not scripted)
+	StallEval       int    `json:"stall_eval"`     // the trigger goroutine is held for stall_us right after this evaluation (1-based; 0 = never)
+	StallUs         int64  `json:"stall_us"`
+	MetricsRuns     int    `json:"metrics_runs"`
+	RunIndex        int    `json:"run_index"`
+	Labels          string `json:"labels"`
+	Args            string `json:"args"`
+	FileStages      int    `json:"file_stages"`
+	TeardownFail    bool   `json:"teardown_fail"` // a cleanup registered by the setup fails when the run is over
+	StepAtUs        int64  `json:"step_at_us"`    // staged step profile: 0 until this instant of the profile, step_val from then on
+	StepVal         int64  `json:"step_val"`
+	StageIntervals  i64s   `json:"stage_intervals_us"` // file mode: the tick interval each stage is configured for (0 = not a rate stage / not stated)
+}
+
+// i64s is a slice of integers that is written as [] (never null) - TLC's JSON reader has no null
+type i64s []int64
+
+func (v i64s) MarshalJSON() ([]byte, error) {
+	if v == nil {
+		return []byte("[]"), nil
+	}
+	return json.Marshal([]int64(v))
 }
 
 type rTrace struct {
@@ -955,7 +966,7 @@ func buildCases(c *ctx) []rCase {
 			rc.cfg.MetricsRuns = 1
 		}
 		if rc.cfg.StageIntervals == nil {
-			rc.cfg.StageIntervals = []int64{}
+			rc.cfg.StageIntervals = i64s{}
 		}
 		cases = append(cases, rc)
 	}
@@ -1523,9 +1534,9 @@ func buildCases(c *ctx) []rCase {
 		if strings.Contains(name, "limit-flag") {
 			lim = 3
 		}
-		var ivs []int64
+		var ivs i64s
 		if strings.Contains(name, "inherited-frequency") {
-			ivs = []int64{100 * ms, 100 * ms}
+			ivs = i64s{100 * ms, 100 * ms}
 		}
 		add(rCase{cli: cliArgs, cliLimit: lim, cfg: rCfg{StageIntervals: ivs, Name: name, Mode: "file", Conc: conc, MaxDurUs: maxDurUs, FileStages: nstages, Light: strings.Contains(name, "stress"),
 			Args: strings.ReplaceAll(yy, "\n", "\\n")},
